@@ -43,6 +43,8 @@ type typedSide struct {
 	drain       func() string
 	mon         *cbLog
 	closefn     func()
+	// a second subscription that is left unread until the end of the scenario (overflow variant)
+	lazyDrain func() (string, bool) // its events, and whether Events() was found closed
 }
 
 func objsSx[T metav1.Object](l []T, err error) string {
@@ -74,7 +76,25 @@ func untypedSide(ctx context.Context, log *kv.Log, srv *kv.Server) (*typedSide, 
 	if _, err := kcache.NewMonitor(c, h); err != nil {
 		return nil, err
 	}
-	return &typedSide{ready: c.Ready(), done: c.Done(), closefn: c.Close, mon: ml,
+	lazy, err := c.Subscribe()
+	if err != nil {
+		return nil, err
+	}
+	lazyDrain := func() (string, bool) {
+		var parts []string
+		for {
+			select {
+			case e, ok := <-lazy.Events():
+				if !ok {
+					return kv.L(parts...), true
+				}
+				parts = append(parts, kv.L(string(e.Type()), kv.Describe(e.Resource()).Sx()))
+			default:
+				return kv.L(parts...), false
+			}
+		}
+	}
+	return &typedSide{ready: c.Ready(), done: c.Done(), closefn: c.Close, mon: ml, lazyDrain: lazyDrain,
 		list: func() string {
 			l, err := c.Cache().List()
 			if err != nil {
@@ -122,7 +142,25 @@ func podSide(ctx context.Context, log *kv.Log, srv *kv.Server) (*typedSide, erro
 	if _, err := pod.NewMonitor(c, h); err != nil {
 		return nil, err
 	}
-	return &typedSide{ready: c.Ready(), done: c.Done(), closefn: c.Close, mon: ml,
+	lazy, err := c.Subscribe()
+	if err != nil {
+		return nil, err
+	}
+	lazyDrain := func() (string, bool) {
+		var parts []string
+		for {
+			select {
+			case e, ok := <-lazy.Events():
+				if !ok {
+					return kv.L(parts...), true
+				}
+				parts = append(parts, kv.L(string(e.Type()), desc(e.Resource())))
+			default:
+				return kv.L(parts...), false
+			}
+		}
+	}
+	return &typedSide{ready: c.Ready(), done: c.Done(), closefn: c.Close, mon: ml, lazyDrain: lazyDrain,
 		list: func() string { return objsSx(c.Cache().List()) },
 		drain: func() string {
 			var parts []string
@@ -164,7 +202,25 @@ func serviceSide(ctx context.Context, log *kv.Log, srv *kv.Server) (*typedSide, 
 	if _, err := service.NewMonitor(c, h); err != nil {
 		return nil, err
 	}
-	return &typedSide{ready: c.Ready(), done: c.Done(), closefn: c.Close, mon: ml,
+	lazy, err := c.Subscribe()
+	if err != nil {
+		return nil, err
+	}
+	lazyDrain := func() (string, bool) {
+		var parts []string
+		for {
+			select {
+			case e, ok := <-lazy.Events():
+				if !ok {
+					return kv.L(parts...), true
+				}
+				parts = append(parts, kv.L(string(e.Type()), desc(e.Resource())))
+			default:
+				return kv.L(parts...), false
+			}
+		}
+	}
+	return &typedSide{ready: c.Ready(), done: c.Done(), closefn: c.Close, mon: ml, lazyDrain: lazyDrain,
 		list: func() string { return objsSx(c.Cache().List()) },
 		drain: func() string {
 			var parts []string
@@ -199,6 +255,12 @@ func runTypedScenario(t *testing.T, tr *tracer, idx int, seed uint64) {
 		tr.line(kv.L("scenario", fmt.Sprint(idx), "typed"))
 		tr.line(kv.L("tstart", kind))
 		kinds := []string{kind, kind, kind, "secret", map[string]string{"pod": "service", "service": "pod"}[kind]}
+		overflow := idx%4 == 3
+		if overflow {
+			// only the own type, and more events than a buffer holds: an unread typed subscription must keep and
+			// lose exactly what an unread untyped one does
+			kinds = []string{kind}
+		}
 		change := func() {
 			k := kv.Pick(r, kinds)
 			// distinct names per kind: the untyped cache is keyed by namespace/name only
@@ -239,6 +301,15 @@ func runTypedScenario(t *testing.T, tr *tracer, idx int, seed uint64) {
 		}
 		settle(&hookN)
 		obs()
+		if overflow {
+			for n := kcache.EventBufsiz*12/10 + r.Intn(kcache.EventBufsiz); n > 0; {
+				for j := inflight(5 + r.Intn(20)); j > 0 && n > 0; j, n = j-1, n-1 {
+					change()
+				}
+				settle(&hookN)
+				obs()
+			}
+		}
 		for i := 8 + r.Intn(10); i > 0; i-- {
 			for j := inflight(1 + r.Intn(3)); j > 0; j-- {
 				change()
@@ -250,6 +321,10 @@ func runTypedScenario(t *testing.T, tr *tracer, idx int, seed uint64) {
 		un.closefn()
 		settle(&hookN)
 		obs()
+		// the unread pair: same events kept, and Events() closed once the controllers are done
+		te, tc := ty.lazyDrain()
+		ue, uc := un.lazyDrain()
+		tr.line(kv.L("tlazy", te, ue, kv.Bool(tc), kv.Bool(uc)))
 		cancel()
 		time.Sleep(5 * time.Second)
 		synctest.Wait()
